@@ -212,7 +212,12 @@ func ruleR14b(h *H) {
 		}
 		h.Verdict(ok, rule, "wrapper "+m+" chains both callbacks", h.P.Pos(fn.Pos()), detail, bad)
 	}
-	// apply functions: callback before mutation
+	ruleCallbackBeforeMutation(h, rule)
+}
+
+// ruleCallbackBeforeMutation: in the kv apply functions the update callback runs before
+// the record is mutated, and its failure stops the mutation.
+func ruleCallbackBeforeMutation(h *H, rule string) {
 	for _, pair := range []struct {
 		cb  string
 		mut ir.Callee
